@@ -88,9 +88,9 @@ public:
             std::lock_guard _(_mx);
             return advance_lk(id,type);
         }
-        bool advance_suspend(Handle id, awaiter *awt) {
+        bool advance_suspend(Handle id, subscribtion_type type, awaiter *awt) {
             std::lock_guard _(_mx);
-            return advance_suspend_lk(id,awt);
+            return advance_suspend_lk(id,type,awt);
         }
 
         void leave(Handle id) {
@@ -218,16 +218,14 @@ public:
             return true;
         }
 
-        bool advance_suspend_lk(Handle h, awaiter *awt) {
+        bool advance_suspend_lk(Handle h, subscribtion_type t, awaiter *awt) {
+            //state could change since ready() (publish, close), so try to advance first
+            if (advance_lk(h,t)) return false;
             subreg_t &l = _regs[h];
-            if (l._kicked || _closed) return false;
+            if (l._kicked) return false;
             l._pos++;
-            if (l._pos == _pos) {
-                l._awt = awt;
-                return true;
-            } else {
-                return false;
-            }
+            l._awt = awt;
+            return true;
         }
         std::optional<T> get_value_lk(Handle h, subscribtion_type type) {
             subreg_t &l = _regs[h];
@@ -538,7 +536,7 @@ protected:
         return _q->advance(_h,_t);
     }
     bool subscribe(awaiter *awt) {
-        return _q->advance_suspend(_h, awt);
+        return _q->advance_suspend(_h, _t, awt);
     }
     bool check_next() {
         _val = _q->get_value(_h,_t);
